@@ -278,7 +278,7 @@ fn stop_sending_contract(mut s: Sender) -> Sender {
 #[kani::proof]
 #[kani::unwind(10)] // packet::number::Map::default() fills 8 slots in a loop
 #[kani::stub(core::panic::Location::caller, location_stub)]
-fn vq_c12_data_sender_stop_sending_with_data() {
+fn vq_c12_data_sender_with_data_stop_sending() {
     // some enqueued, untransmitted data (only legal while Sending): measured > 300 s, hence thorough
     let mut s = Sender::new(Fc { window: VarInt::MAX, blocked: kani::any(), finished: false, cleared: 0, last_end: None }, 1024);
     let b0 = snd(&s);
